@@ -26,12 +26,17 @@ SET_FOR = {("dna", 0): "dna", ("dna", 1): "internal", ("dna", 2): "rna", ("dna",
            ("protein", 3): "protein", ("protein", 4): "divergent", ("protein", 5): "protein"}
 
 
-def plant(seed, alpha, la, sub, nindel, maxindel, overhang):
+def plant(seed, alpha, la, sub, nindel, maxindel, overhang, at_splits=False):
     rnd = random.Random(seed)
     a = [rnd.choice(alpha) for _ in range(la)]
     b = []
     i = 0
     events = sorted(rnd.sample(range(1, max(2, la)), min(nindel, max(0, la - 1)))) if la > 2 else []
+    if at_splits and la > 16:
+        # indels on and next to the rows at which a divide-and-conquer DP cuts the problem (1/2, 1/4, 3/4, 1/8 ...): the
+        # boundary states handed from a block to its halves are exercised only when a gap crosses such a row
+        rows = [la // 2, la // 4, (3 * la) // 4, la // 8, (5 * la) // 8]
+        events = sorted(set(min(la - 1, max(1, r + rnd.randint(-maxindel, 2))) for r in rows[:max(1, nindel)]))
     ev = set(events)
     while i < la:
         if i in ev:
@@ -73,7 +78,7 @@ def cases(draw, tier):
     # alignments (X, U -> X, B, Z; N)
     alpha = draw(st.sampled_from([gen.NUC, gen.NUC, gen.NUC, gen.NUC + "N", gen.NUC + "NN"] if kind == "dna" else
                                  [gen.AA, gen.AA, gen.AA, gen.AA_X, gen.AA + "XXXXX", gen.AA + "XXUUBZ"]))
-    mode = draw(st.sampled_from(["tiny", "planted", "planted", "planted", "long", "overlap"]))
+    mode = draw(st.sampled_from(["tiny", "tiny", "planted", "planted", "planted", "planted", "planted", "planted", "long", "long", "overlap", "overlap", "xlong"]))
     if mode == "overlap":
         # suffix-prefix overlap: a short shared core, long overhangs on opposite ends (either sequence may be the longer one)
         rnd = random.Random(draw(st.integers(0, 2 ** 32 - 1)))
@@ -90,10 +95,15 @@ def cases(draw, tier):
     else:
         if mode == "long":
             la = draw(st.integers(480, 700 if tier == "quick" else 1500))
+        elif mode == "xlong":
+            # two levels of the parallel (>= 500 rows) driver
+            la = draw(st.integers(1001, 1300 if tier == "quick" else 2300))
         else:
             la = draw(st.one_of(st.integers(2, 400), st.integers(5, 60)))
         a, b = plant(draw(st.integers(0, 2 ** 32 - 1)), alpha, la, draw(st.sampled_from([0.0, 0.05, 0.15, 0.3])),
-                     draw(st.integers(0, 4)), draw(st.sampled_from([1, 3, 10, 40])), draw(st.sampled_from([0, 0, 5, 40, -1, -2, -4])))
+                     draw(st.integers(0, 4)) if mode != "xlong" else draw(st.integers(1, 4)), draw(st.sampled_from([1, 3, 10, 40])),
+                     draw(st.sampled_from([0, 0, 5, 40, -1, -2, -4])) if mode != "xlong" else draw(st.sampled_from([0, 0, 5, 40])),
+                     at_splits=(mode == "xlong") or draw(st.integers(0, 2)) == 0)
     types = gen.DNA_TYPES if kind == "dna" else gen.PROT_TYPES
     t = draw(st.sampled_from(types))
     if draw(st.integers(0, 2)) == 0:
@@ -207,6 +217,8 @@ def check(case):
         cl.append("len>=500")
     if min(len(a), len(b)) >= 500:
         cl.append("minlen>=500(parallel)")
+    if min(len(a), len(b)) >= 1000:
+        cl.append("minlen>=1000(two parallel levels)")
     if min(cert["m_same"], cert["m_diff"]) <= need:
         return engine.discard("not certified (margin %s)" % ("<= need" if min(cert["m_same"], cert["m_diff"]) > 0 else "0: tie"), classes=cl)
     rows = r["rows"]
